@@ -1,7 +1,7 @@
 """C12 - cross-thread hand-off containers (TransactionalBuffer, TransactionalValue) lose, duplicate and race on nothing."""
 import json, os, random, copy, re
 from concurrent.futures import ThreadPoolExecutor
-from .. import tla, build, adtcheck, handoff, trace
+from .. import tla, build, adtcheck, handoff, trace, funcheck
 from ..tla import VERIF, InfraError
 
 LEVEL = "model_checking"
@@ -11,8 +11,10 @@ LEVEL_TEXT = ("TLC checks (a) that the atomic hand-off contract implies the decl
               "data-race detector invariant under all interleavings of 2-3 producers x 2 pushes + consumer resp. 3-5 assignments + consumer, "
               "with negative-control variants that TLC must refute; TLC-generated call sequences and seeded concurrent executions of the real "
               "objects (1..8 producer threads, int and std::string payloads, invocation/response stamps from one atomic counter) are validated "
-              "by a TLC trace specification that searches for a linearisation; the same scenarios run under ThreadSanitizer, a report being an "
-              "event the contract rejects")
+              "by a TLC trace specification that searches for a linearisation; histories with bursts of 1..65537 producer calls between two "
+              "consumer calls (counter boundaries 2^8, 2^16; a burst is one macro action of the contract, proved equal to its single steps on small "
+              "instances) run single-threaded for every length class and concurrently with the consumer held between two polls; the same "
+              "scenarios run under ThreadSanitizer, a report being an event the contract rejects")
 LEVEL_NOTE = ("bounded model instances; real-code part is a sample of schedules (what the OS scheduler produced under seeded jitter), not all "
               "interleavings; the mechanism models are transcriptions by hand (sequentially consistent exploration, justified only for "
               "race-free variants); trusted: TLC, ThreadSanitizer (std::thread-only driver), g++/libstdc++, the driver's injective payload encoding")
@@ -113,6 +115,58 @@ def seq_scenarios(chk, quick):
     return out, info
 
 
+BURST_LENS = [1, 2, 127, 128, 255, 256, 257, 511, 512, 513, 1024, 65535, 65536, 65537]
+
+
+def burst_seq_scenarios(chk, quick):
+    """Single-threaded histories with long bursts between consumer calls: the family is defined and emitted by TLC
+    (HandOffBurstGen.tla, a burst is ONE step of the history); every history runs with both payload types."""
+    cases = funcheck.gen_cases(chk, SPEC, "HandOffBurstGen", "HandOffBurstGen.cfg" if quick else "HandOffBurstGen_thorough.cfg", "c12-burstgen",
+                               what="histories with bursts at / around 2^8 and 2^16 calls between two consumer calls")
+    out = []
+    for c in sorted(cases, key=lambda c: (c["shape"], c["obj"], c["cls"])):
+        steps = []
+        for st in c["h"]:
+            a = st["a"]
+            if a == "Burst":
+                steps.append({"a": a, "arg": {"n": st["n"]}})
+            elif a == "BurstPush":
+                steps.append({"a": a, "arg": {"p": st["p"], "n": st["n"]}})
+            elif a == "Push":
+                steps.append({"a": a, "arg": {"p": st["p"], "mv": len(steps) % 2 == 1}})
+            elif a == "Get":
+                steps.append({"a": a, "arg": {"ref": st["ref"]}})
+            else:
+                steps.append({"a": a, "arg": {}})
+        for payload in ("int", "str"):
+            out.append({"kind": "seq", "obj": c["obj"], "payload": payload, "h": steps, "burst": c["cls"], "shape": c["shape"]})
+    return out
+
+
+def burst_conc_scenarios(rnd, quick):
+    """Concurrent executions in which the producer issues a whole burst between two consumer polls (the driver
+    holds the consumer between two calls during the burst; with "wait" the producer then makes no call until the
+    consumer has polled once more - it has stopped exactly at the boundary for that poll)."""
+    lens = [256, 65536, 512, 257, 255] if quick else [n for n in BURST_LENS if n >= 127] + [131072, 768]
+    out = []
+    for obj in ("val", "buf"):
+        for i, n in enumerate(lens):
+            for payload in ("int", "str"):
+                for rep in range(1 if quick else 2):
+                    other = rnd.choice([256, 512, 255, 1, 2, 300])
+                    phases = [{"a": rnd.randint(0, 3)}, {"b": n, "wait": True}, {"a": rnd.randint(1, 3)},
+                              {"b": other, "wait": rnd.random() < 0.5}, {"a": rnd.randint(0, 2)}]
+                    if rnd.random() < 0.5:
+                        phases.append({"b": n if n <= 1024 else 256, "wait": False})       # the producer stops at the boundary, for good
+                    sc = {"kind": "burst", "obj": obj, "payload": payload, "phases": phases, "M": rnd.randint(3, 8),
+                          "pj": rnd.choice([0, 50, 400]), "cj": rnd.choice([0, 50, 400]), "seed": rnd.randint(1, 2 ** 30)}
+                    if obj == "buf":
+                        sc["P"] = 1 + (i + rep) % 2
+                        sc["K"] = rnd.randint(2, 5)
+                    out.append(sc)
+    return out
+
+
 def conc_scenarios(rnd, quick, n_buf, n_val, maxP):
     out = []
     for i in range(n_buf):
@@ -134,8 +188,29 @@ def conc_scenarios(rnd, quick, n_buf, n_val, maxP):
 
 
 # ---------------------------------------------------------------------------
-def classify(line):
-    """Signature tail for the line no linearisation can explain."""
+def classify(line, before=()):
+    """Signature tail for the line no linearisation can explain.  Argument class (executions with bursts only): the
+    number k of producer calls issued since the consumer's previous call, as "k%65536=0", "k%256=0" or "after-burst"."""
+    call, field = _classify(line)
+    before = list(before)
+    if not any(l.get("k") == "inv" and l["c"]["op"] in ("burst", "bpush") for l in before):
+        return call, field
+    t = line.get("t", 0)
+    end = len(before)
+    if line.get("k") == "res":                       # the window of the rejected call starts at its own invocation
+        end = max([i for i, l in enumerate(before) if l.get("k") == "inv" and l.get("t") == t] or [end])
+    k = 0
+    for l in reversed(before[:end]):
+        if l.get("t") == 0:
+            break                                    # the consumer's previous call
+        if l.get("k") == "inv" and l["c"]["op"] in ("push", "assign", "burst", "bpush"):
+            k += l["c"].get("n", 1) if l["c"]["op"] in ("burst", "bpush") else 1
+    cls = "k%65536=0" if k and k % 65536 == 0 else "k%256=0" if k and k % 256 == 0 else "after-burst"
+    call = call[:-2] + "(%s)" % cls if call.endswith("()") else "%s(%s)" % (call, cls)
+    return call, field
+
+
+def _classify(line):
     k = line.get("k")
     if k == "End":
         return "End", ("element-lost" if line.get("obj") == "buf" else "last-value-not-obtained")
@@ -156,7 +231,9 @@ def count_ops(chk, executions):
             c = ln["c"]
             op = c["op"]
             if op == "consume":
-                op = "consume(nonempty)" if c["batch"] else "consume(empty)"
+                op = "consume(nonempty)" if c.get("runs") or c.get("batch") else "consume(empty)"
+            elif op in ("burst", "bpush"):
+                op = "%s(n=%d)" % (op, c["n"])
             elif op == "update":
                 op = "update(true)" if c["ret"] else "update(false)"
             elif op == "push":
@@ -166,6 +243,32 @@ def count_ops(chk, executions):
             elif op == "size":
                 op = "size(0)" if c["n"] == 0 else "size(>0)"
             ac[op] = ac.get(op, 0) + 1
+
+
+def burst_guards(chk, execs_b, owners_b, execs_bc, owners_bc):
+    """Vacuity guards: every burst-length class ran for both containers and both payload types (single-threaded),
+    and bursts of >= 2^8 and >= 2^16 calls fell between two consumer polls in concurrent executions of each."""
+    def bursts(lines):
+        return [l["c"]["n"] for l in lines if l.get("k") == "inv" and l["c"]["op"] in ("burst", "bpush")]
+    seen = {}
+    for lines, sc in zip(execs_b, owners_b):
+        for n in bursts(lines):
+            seen[(sc["obj"], sc["payload"], n)] = seen.get((sc["obj"], sc["payload"], n), 0) + 1
+    missing = [(o, pl, n) for o in ("val", "buf") for pl in ("int", "str") for n in BURST_LENS if not seen.get((o, pl, n))]
+    if missing:
+        raise InfraError("vacuity guard: burst classes never executed (single-threaded): %s" % missing[:10])
+    conc = {}
+    for lines, sc in zip(execs_bc, owners_bc):
+        for n in bursts(lines):
+            conc.setdefault((sc["obj"], sc["payload"]), []).append(n)
+    for o in ("val", "buf"):
+        for pl in ("int", "str"):
+            ns = conc.get((o, pl), [])
+            if not any(256 <= n < 65536 for n in ns) or not any(n >= 65536 for n in ns):
+                raise InfraError("vacuity guard: concurrent executions of %s/%s lack a burst >= 256 or >= 65536 between two consumer polls: %s" % (o, pl, ns))
+    chk.cov["burst_classes_sequential"] = {"%s/%s" % (o, pl): sorted(n for (oo, pp, n) in seen if (oo, pp) == (o, pl))
+                                           for o in ("val", "buf") for pl in ("int", "str")}
+    chk.cov["burst_lengths_concurrent"] = {"%s/%s" % k: sorted(set(v)) for k, v in conc.items()}
 
 
 def run_and_validate(chk, exe, scenarios, tag, chunks):
@@ -198,7 +301,7 @@ def run_and_validate(chk, exe, scenarios, tag, chunks):
 
 
 def report_rejection(chk, sc, lines, at):
-    call, field = classify(lines[at])
+    call, field = classify(lines[at], lines[:at])
     sig = "%s/%s/%s" % (handoff.api(sc), call, field)
     if sig not in chk._seen_sigs:
         # first rejection with this signature: re-check the single execution once before reporting it
@@ -287,19 +390,19 @@ def corruption_selftest(chk, execs, owners):
         return None
 
     def drop_elem(c, mode):
-        ok = c["op"] == "consume" and len(c["batch"]) >= 1
+        ok = c["op"] == "consume" and len(c.get("batch", [])) >= 1
         if ok and mode == "apply":
             c["batch"].pop(0)
         return ok
 
     def dup_elem(c, mode):
-        ok = c["op"] == "consume" and len(c["batch"]) >= 1
+        ok = c["op"] == "consume" and len(c.get("batch", [])) >= 1
         if ok and mode == "apply":
             c["batch"].append(list(c["batch"][0]))
         return ok
 
     def swap_same_producer(c, mode):
-        if c["op"] != "consume":
+        if c["op"] != "consume" or "batch" not in c:
             return False
         b = c["batch"]
         for i in range(len(b)):
@@ -359,6 +462,9 @@ def run(chk, replay=None):
         "stamps come from one seq_cst atomic counter: response stamp < invocation stamp implies real-time order; nothing else is assumed about time",
         "ThreadSanitizer sees all synchronisation (driver uses std::thread/std::atomic only) and reports only races it observed",
         "payload encoding (pair <-> IntPair / std::string) in the driver is injective",
+        "a consumer call made while every producer is idle and with nothing inside its window is judged by the End clause of the statement "
+        "(the execution up to its response is a complete execution whose producers have stopped): consume() takes all, update() installs the last value",
+        "burst lengths explored: 1, 2, 127..129-1, 255..257, 511..513, 1024, 65535..65537 (and sums of two of them); other counter widths (2^32) are not reached",
     ]
     if replay:
         return do_replay(chk, replay)
@@ -375,6 +481,11 @@ def run(chk, replay=None):
     execs_s, owners_s, rej_s = run_and_validate(chk, exe, seq, "c12-seq", chunks=8)
     count_ops(chk, execs_s)
 
+    # spec -> code, long bursts between two consumer calls (counter boundaries): single-threaded, deterministic
+    bseq = burst_seq_scenarios(chk, quick)
+    execs_b, owners_b, rej_b = run_and_validate(chk, exe, bseq, "c12-burst-seq", chunks=8)
+    count_ops(chk, execs_b)
+
     # code -> spec: concurrent executions
     conc = conc_scenarios(rnd, quick, 100 if quick else 1500, 130 if quick else 1400, 4 if quick else 8)
     execs_c, owners_c, rej = run_and_validate(chk, exe, conc, "c12-conc", chunks=8)
@@ -382,21 +493,28 @@ def run(chk, replay=None):
     ov = [sc.get("_overlaps", 0) for sc in owners_c]
     chk.cov["concurrent_executions_with_overlapping_calls"] = sum(1 for x in ov if x > 0)
     chk.cov["overlapping_call_pairs"] = sum(ov)
-    clean = not rej and not rej_s        # code that violates the contract may legitimately skew what was exercised: guards only on clean runs
+    # ... and concurrent executions in which a whole burst falls between two consumer polls
+    bconc = burst_conc_scenarios(rnd, quick)
+    execs_bc, owners_bc, rej_bc = run_and_validate(chk, exe, bconc, "c12-burst-conc", chunks=8)
+    count_ops(chk, execs_bc)
+    clean = not rej and not rej_s and not rej_b and not rej_bc       # code that violates the contract may legitimately skew what was exercised: guards only on clean runs
     if clean and chk.cov["concurrent_executions_with_overlapping_calls"] < len(owners_c) // 4:
         raise InfraError("vacuity guard: only %d of %d concurrent executions contain overlapping calls" % (chk.cov["concurrent_executions_with_overlapping_calls"], len(owners_c)))
     if clean:
         chk.require_actions(["push(const&)", "push(rvalue)", "consume(nonempty)", "consume(empty)", "size(>0)", "size(0)", "empty(true)", "empty(false)",
                              "assign", "update(true)", "update(false)", "get"])
-    allx = execs_s + execs_c
+    if clean:
+        burst_guards(chk, execs_b, owners_b, execs_bc, owners_bc)
+    allx = execs_s + execs_c + execs_b + execs_bc
     distinct = {}
-    for lines, sc in zip(allx, owners_s + owners_c):
+    for lines, sc in zip(allx, owners_s + owners_c + owners_b + owners_bc):
         nontrivial = any(l.get("k") == "inv" and l["c"]["op"] in ("push", "assign") for l in lines)
         if nontrivial:
             distinct[handoff.digest(lines)] = 1
     chk.cov["distinct_nontrivial"] = len(distinct)
     chk.cov["rule"] = ("executions = (a) every path up to a budgeted length + one path per transition + random walks of TLC's state graph of the bounded "
-                       "contract, run single-threaded, (b) seeded concurrent scenarios (threads, pushes, consumer calls, jitter drawn from VERIF_SEED); "
+                       "contract, run single-threaded, (a') TLC-emitted single-threaded histories with bursts of 1..65537 calls between two consumer calls, "
+                       "(b) seeded concurrent scenarios (threads, pushes, consumer calls, jitter drawn from VERIF_SEED); "
                        "distinct = distinct merged inv/res line sequences (stamps order + arguments + results); non-trivial = contains a push or an assignment")
     if clean:
         corruption_selftest(chk, execs_c, owners_c)
